@@ -227,7 +227,9 @@ def d8_3(ctx):
     ps = [a.arg for a in node.args.args]
     for label, data, skip, size, want in (("4 of 4 bytes", b"abcd", 0, 4, ("return", b"abcd")), ("2 of 4 bytes", b"abcd", 0, 2, ("return", b"ab")), ("the last 2 of 4 bytes", b"abcd", 2, 2, ("return", b"cd")), ("1 of 1 byte", b"z", 0, 1, ("return", b"z")),
                                           ("an empty stream", b"", 0, 2, ("raise", "BufferEmptyError")), ("a stream read to its end", b"abcd", 4, 1, ("raise", "BufferEmptyError")), ("1 byte left of 2", b"a", 0, 2, ("raise", "DataError")),
-                                          ("3 bytes left of 4", b"abcd", 1, 4, ("raise", "DataError")), ("7 bytes left of 8", b"abcdefg", 0, 8, ("raise", "DataError"))):
+                                          ("3 bytes left of 4", b"abcd", 1, 4, ("raise", "DataError")), ("7 bytes left of 8", b"abcdefg", 0, 8, ("raise", "DataError")),
+                                          ("the rest (-1) of a stream with 3 bytes left", b"xabc", 1, -1, ("return", b"abc")), ("the rest (-1) of an exhausted stream", b"abc", 3, -1, ("raise", "BufferEmptyError")),
+                                          ("the rest (-1) of an empty stream", b"", 0, -1, ("raise", "BufferEmptyError")), ("0 bytes of an exhausted stream", b"abc", 3, 0, ("raise", "BufferEmptyError"))):
         st = Stream(data)
         st.read(skip)
         kind, res = run_function(ctx, base.module, node, {ps[0]: Obj(_ci=base, _is_class=True), ps[1]: st, ps[2]: size}, deep=False)
@@ -237,7 +239,7 @@ def d8_3(ctx):
             ctx.undecided(key, node, f"_stream_read not foldable on {label}: {res}")
             continue
         res = bytes(res) if isinstance(res, bytearray) else res
-        ok = (kind, res) == want and (want[0] == "raise" or st.pos == skip + size)
+        ok = (kind, res) == want and (want[0] == "raise" or st.pos == (skip + size if size >= 0 else len(data)))
         ctx.check(ok, key, node, f"{label}: {want[0]} {want[1]!r}", f"_stream_read of {size} byte(s) from {label} gives {kind} {res!r} (stream at {st.pos}); expected {want[0]} {want[1]!r}: "
                   + ("an exhausted buffer must be BufferEmptyError (it ends unbounded arrays)" if role == "empty" else "a fixed-width value must not be produced from fewer bytes than its width" if role == "short" else "the bytes asked for"))
     # raw reads inside decoders of the anchored files
